@@ -189,6 +189,55 @@ def v1(run: Run, cy: CyProgram):
                 "neither of them is missing")
 
 
+def _row_part(m):
+    """How a time-directed degree method selects its part of row i:
+    ('slice', lower, upper, row)  for  A[i, lower:upper].sum()
+    ('tri', 'lower'|'upper', k, axis) for np.tril/np.triu(A, k).sum(axis=..)
+    with locals inlined; None if the form is not recognised."""
+    from .idioms import inline_locals
+    subs = [s for s in ast.walk(m.node) if isinstance(s, ast.Subscript)
+            and isinstance(s.slice, ast.Tuple) and len(s.slice.elts) == 2
+            and isinstance(s.slice.elts[1], ast.Slice) and isinstance(s.ctx, ast.Load)]
+    if len(subs) == 1:
+        s = subs[0]
+        d = s.slice.elts[1]
+        return ("slice", ast.unparse(d.lower) if d.lower else None,
+                ast.unparse(d.upper) if d.upper else None,
+                ast.unparse(s.slice.elts[0]), s)
+    for r in ast.walk(m.node):
+        if not (isinstance(r, ast.Return) and r.value is not None):
+            continue
+        e = inline_locals(m.node, r.value)
+        for c in ast.walk(e):
+            if isinstance(c, ast.Call) and isinstance(c.func, ast.Attribute) and \
+                    c.func.attr == "sum" and isinstance(c.func.value, ast.Call) and \
+                    ast.unparse(c.func.value.func) in ("np.tril", "np.triu"):
+                tri = c.func.value
+                k = 0
+                if len(tri.args) > 1:
+                    k = tri.args[1]
+                for kw in tri.keywords:
+                    if kw.arg == "k":
+                        k = kw.value
+                try:
+                    k = int(ast.literal_eval(k)) if not isinstance(k, int) else k
+                except (ValueError, SyntaxError):
+                    return None
+                ax = None
+                if c.args:
+                    ax = c.args[0]
+                for kw in c.keywords:
+                    if kw.arg == "axis":
+                        ax = kw.value
+                try:
+                    ax = int(ast.literal_eval(ax)) if ax is not None else None
+                except (ValueError, SyntaxError):
+                    return None
+                return ("tri", "lower" if ast.unparse(tri.func) == "np.tril" else "upper",
+                        k, ax, r)
+    return None
+
+
 def v2(run: Run, prog: Program):
     vg = prog.classes.get("VisibilityGraph")
     if vg is None:
@@ -198,28 +247,32 @@ def v2(run: Run, prog: Program):
         m = vg.methods.get(mname)
         if m is None:
             raise AnalysisError(f"VisibilityGraph.{mname} vanished")
-        subs = [s for s in ast.walk(m.node) if isinstance(s, ast.Subscript)
-                and isinstance(s.slice, ast.Tuple) and len(s.slice.elts) == 2
-                and isinstance(s.slice.elts[1], ast.Slice)
-                and isinstance(s.ctx, ast.Load)]
-        if len(subs) != 1:
-            raise AnalysisError(f"{m.where}: row slice not found in {mname}")
-        s = subs[0]
-        d = s.slice.elts[1]
-        sl[mname] = (ast.unparse(s.value), ast.unparse(s.slice.elts[0]),
-                     ast.unparse(d.lower) if d.lower else None,
-                     ast.unparse(d.upper) if d.upper else None, m, s)
-    r, a = sl["retarded_degree"], sl["advanced_degree"]
-    ok = r[1] == a[1] and r[2] is None and a[3] is None and r[3] is not None and \
-        a[2] in (r[3], f"{r[3]} + 1") and r[3] == r[1]
+        part = _row_part(m)
+        if part is None:
+            raise AnalysisError(f"{m.where}: row selection not recognised in {mname}")
+        sl[mname] = (part, m)
+    (r, rm), (a, am) = sl["retarded_degree"], sl["advanced_degree"]
+    if r[0] == "slice" and a[0] == "slice":
+        ok = r[3] == a[3] and r[1] is None and a[2] is None and r[2] is not None and \
+            a[1] in (r[2], f"{r[2]} + 1") and r[2] == r[3]
+        desc = (f"`[{r[3]}, {r[1]}:{r[2]}]`", f"`[{a[3]}, {a[1]}:{a[2]}]`")
+    elif r[0] == "tri" and a[0] == "tri":
+        # row i of the strictly lower / strictly upper triangle, summed along the
+        # row (axis=1); the diagonal is empty, so k = 0 is equivalent to k = -/+1
+        ok = r[1] == "lower" and a[1] == "upper" and r[2] in (-1, 0) and a[2] in (0, 1) \
+            and r[3] == a[3] == 1
+        desc = (f"`np.tril(A, {r[2]}).sum(axis={r[3]})`",
+                f"`np.triu(A, {a[2]}).sum(axis={a[3]})`")
+    else:
+        ok = False
+        desc = (str(r[:4]), str(a[:4]))
     run.oblige("V2", "retarded+advanced=degree", ok, sample={
-        "retarded": f"{r[0]}[{r[1]}, {r[2]}:{r[3]}]",
-        "advanced": f"{a[0]}[{a[1]}, {a[2]}:{a[3]}]"})
+        "retarded": desc[0], "advanced": desc[1]})
     if not ok:
-        run.add("V2", "VisibilityGraph/complementary-slices", a[4].where,
-                f"retarded_degree sums `[{r[1]}, {r[2]}:{r[3]}]` and advanced_degree "
-                f"`[{a[1]}, {a[2]}:{a[3]}]`: the two slices must partition the row "
-                f"(diagonal is empty), otherwise retarded + advanced != degree")
+        run.add("V2", "VisibilityGraph/complementary-slices", am.where,
+                f"retarded_degree sums {desc[0]} and advanced_degree {desc[1]}: the two "
+                f"selections must partition row i (diagonal is empty) and be summed "
+                f"along the row, otherwise retarded + advanced != degree")
 
 
 def v3(run: Run, cy: CyProgram):
@@ -302,4 +355,4 @@ def check(run: Run, prog: Program, cy: CyProgram, sites):
     v4(run, prog)
     n = report_sites(run, "V3", sites,
                      lambda s: "visibility_graph" in s.func.module.relpath)
-    run.floor("V3 call sites", n, 5)
+    run.floor("V3 call sites", n, 1)
